@@ -489,7 +489,7 @@ def gate_notes(instr):
     return out
 
 
-GATE_FORMS = ["text", "note", "list_text", "list_notes", "nc", "pair_with_E4", "seven", "middle_of_three"]
+GATE_FORMS = ["text", "note", "list_text", "list_notes", "nc", "pair_with_E4", "seven", "middle_of_three", "six"]
 
 
 def gate_argument(form, note):
@@ -516,6 +516,13 @@ def gate_argument(form, note):
         r.add(n, o)
         r.add("G", 4)
         return [Note("E", 4), Note(n, o), Note("G", 4)], list(r.notes)
+    if form == "six":
+        # exactly six distinct pitches (one per string of a guitar): five in range plus the probe note
+        r = R.RefSet([("E", 4), ("G", 4), ("B", 4), ("D", 5), ("F", 5)])
+        r.add(n, o)
+        if len(r.notes) < 6:
+            r.add("A", 5)
+        return NoteContainer([[a, b] for a, b in r.notes]), list(r.notes)
     if form == "seven":
         # seven distinct in-range pitches around E-4/E-5 plus the probe note
         base = [("E", 4), ("G", 4), ("B", 4), ("D", 5), ("F", 5), ("A", 5)]
